@@ -109,6 +109,7 @@ def make_conn(E, cls=CONN, key='some', **over):
         seq_sending=E.int('seq_sending', cls=SEQ, lo=0, hi=S.M), seq_message=E.int('seq_message', cls=SEQ, lo=0, hi=S.M),
         seq_fragment=E.int('seq_fragment', cls=SEQ, lo=0, hi=S.M),
         bitfield_pkt=make_bitfield_w(E, 'bf_pkt', 32), bitfield_msg=make_bitfield_w(E, 'bf_msg', 256),
+        bitfield_frag=make_bitfield_w(E, 'bf_frag', 256),
         outgoing_timeout=E.real('outgoing_timeout', lo=0), temp_connection_timeout=E.real('temp_connection_timeout', lo=0),
         send_interval=E.real('send_interval', lo=0), send_keep_alive_interval=E.real('send_keep_alive_interval', lo=0),
         latency=E.real('latency'), last_recv_time=E.real('last_recv_time'), last_send_time=E.real('last_send_time'),
